@@ -83,6 +83,8 @@ def presentation(key, seed):
       'elig_geo_str': bool(rnd.randrange(2)),
       'elig_geo_index': bool(rnd.randrange(2)),
       'keep_index': bool(rnd.randrange(2)),
+      # a missing cell may also arrive as a record whose response is NaN ("not reported")
+      'missing_as_nan': rnd.randrange(3) == 0,
   }
 
 
@@ -111,6 +113,10 @@ def build_inputs(case, pres, pd, GeoEligibility):
       if v >= 0:
         v *= case.get('sgn', 1)
         recs.append((ids[g - 1], dates[d], float(v) if pres['response_float'] else int(v)))
+      elif pres.get('missing_as_nan') and (g + d) % 2 == 0 and any(x >= 0 for x in row) and \
+          any(r2[d - 1] >= 0 for r2 in case['cells']):
+        # only where the geo and the date are present anyway (an all-NaN geo or date is another matter)
+        recs.append((ids[g - 1], dates[d], float('nan')))
   rnd.shuffle(recs)
   col = pres['response_col']
   data = {'geo': [r[0] for r in recs], 'date': [r[1] for r in recs], col: [r[2] for r in recs]}
@@ -335,6 +341,16 @@ def replay_group(group):
     out.append((members[0][0], bad))
     out.extend((n, []) for n, _ in members[1:])   # same construction: reported once
     return out
+  if first.get('preidx'):
+    # the caller fixed a geo index (all assignable geos in row order) and read the aggregates before the cut
+    try:
+      data.geo_index = [g for g in data.df.index if g in data.assignable]
+      if data.geo_index:
+        data.aggregate_time_series({0})
+        data.aggregate_geo_share({0})
+    except Exception as e:  # pylint: disable=broad-except
+      return [(members[0][0], [('IndexAccepts', 'all assignable geos in row order: %s: %s' % (type(e).__name__, e))])] + \
+          [(n, []) for n, _ in members[1:]]
   if first.get('keep', 0) > 0:
     # what a searcher does to the object before it fixes the geo index (tbrmatchedmarkets.py:69)
     data.df = data.df.iloc[:, -first['keep']:]
